@@ -1198,8 +1198,9 @@ package ion
 // read back as UTC): the text time.Format produced is corrected to "-00:00" (C15, C01). The
 // rest of the text (time.Format, the layout) is outside the engine's subset.
 //@ func (TimestampPrecision).Layout
-//@ trusted thin: called by contract (the layout text is not under contract)
 //@ modifies nothing
+//@ invariant loop0 true
+//@ safe[C06,C15]
 
 //@ func (Timestamp).String
 //@ split returns
@@ -1758,8 +1759,9 @@ package ion
 //@ modifies *
 
 //@ func (*Decoder).attachAnnotations
-//@ trusted thin: called by contract, nothing assumed but termination (reflection-heavy, not under contract)
+//@ requires d.r != nil
 //@ modifies *
+//@ safe[C06,C17]
 
 // An Ion int decoded into an interface{} keeps its value: the 32-bit and 64-bit sizes arrive
 // as int and int64 holding exactly what the Reader returned.
@@ -1868,11 +1870,17 @@ package ion
 //@ safe[C06,C16]
 
 //@ func (*Decoder).decodeDecimalTo
-//@ trusted thin: called by contract (reflection-heavy, not under contract)
+//@ split returns
+//@ requires d.r != nil && !d.r.IsNull()
 //@ modifies *
+//@ ensures[C17] v.Kind() != reflect.Struct && v.Kind() != reflect.Interface ==> err != nil
+//@ safe[C06,C17]
 //@ func (*Decoder).decodeTimestampTo
-//@ trusted thin: called by contract (reflection-heavy, not under contract)
+//@ split returns
+//@ requires d.r != nil && !d.r.IsNull()
 //@ modifies *
+//@ ensures[C17] v.Kind() != reflect.Struct && v.Kind() != reflect.Interface ==> err != nil
+//@ safe[C06,C17]
 //@ func (*Decoder).decodeLobTo
 //@ trusted thin: called by contract (reflection-heavy, not under contract)
 //@ modifies *
@@ -2183,6 +2191,7 @@ package ion
 //@ split returns
 //@ requires t != nil && ret != nil && tkStream(t)
 //@ modifies t.pos, t.buffer, vcStreamOf(t.in).cur, *ret
+//@ ensures[C06,C19] tkStream(t)
 //@ ensures[C01,C02] len(*ret) == old(len(*ret)) || len(*ret) == old(len(*ret))+1
 //@ ensures[C01,C02] forall k int :: 0 <= k && k < old(len(*ret)) ==> (*ret)[k] == old((*ret)[k])
 //@ safe[C06]
@@ -2246,15 +2255,17 @@ package ion
 //@ modifies *
 //@ ensures tkStream(t)
 //@ func (*tokenizer).readClob
-//@ trusted thin: called by contract; assumed to keep the input attached (scanning loops are not under contract)
 //@ requires tkStream(t)
 //@ modifies *
-//@ ensures tkStream(t)
+//@ invariant loop0 tkStream(t)
+//@ ensures[C06,C19] tkStream(t)
+//@ safe[C06]
 //@ func (*tokenizer).readLongClob
-//@ trusted thin: called by contract; assumed to keep the input attached (scanning loops are not under contract)
 //@ requires tkStream(t)
 //@ modifies *
-//@ ensures tkStream(t)
+//@ invariant loop0 tkStream(t)
+//@ ensures[C06,C19] tkStream(t)
+//@ safe[C06]
 
 //@ func (*tokenizer).ReadBlob
 //@ requires tkStream(t)
@@ -2306,12 +2317,13 @@ package ion
 //@ safe[C06]
 //@ modifies nothing
 //@ func NewTimestampFromStr
-//@ trusted thin: called by contract (time.Parse based)
 //@ modifies nothing
+//@ invariant loop0 [idx int] 0 <= idx && idx <= len(dateStr)
+//@ safe[C06,C15]
 //@ func roundFractionalSeconds
-//@ trusted thin: called by contract (time.Parse based)
-//@ requires 0 <= idx && idx <= len(val)
+//@ requires 18 <= idx && idx <= len(val)
 //@ modifies nothing
+//@ safe[C06,C15]
 //@ func invalidTimestamp
 //@ modifies nothing
 //@ ensures[C07,C15] err != nil
